@@ -47,6 +47,73 @@ def load_hints():
         return {}
 
 
+class Rec:
+    """an obligation as produced by a generator process: the SMT-LIB text plus what the report needs"""
+    def __init__(self, **kw):
+        self.__dict__.update(kw)
+        self.status, self.time, self.backend, self.detail = None, 0.0, None, ""
+
+    @property
+    def site(self):
+        return "%s:%s:%s" % (self.unit, self.kind, self.label)
+
+
+_CT = {}
+
+
+def gen_unit(task):
+    """runs in a worker process: verify one unit, return its obligations (filtered by property) as SMT-LIB strings"""
+    qname, N, prop, tier, repo = task
+    import time as _t
+    t0 = _t.time()
+    from . import driver
+    from .engine import Unsupported
+    key = repo or ""
+    if key not in _CT:
+        _CT[key] = driver.load(repo)
+    ct, reg = _CT[key]
+    out = {"qname": qname, "N": N, "undecided": None, "obls": []}
+    try:
+        u, ob = driver.verify(ct, reg, qname, N, tier)
+    except Unsupported as ex:
+        out["undecided"] = "%s%s: %s" % (qname, "[%s]" % N if N else "", ex)
+        return out
+    except Exception as ex:          # generator crash: reported as checker error, never as a verdict
+        import traceback
+        out["crash"] = traceback.format_exc()
+        return out
+    keep = [o for o in ob if prop in o.props or o.kind == "canary" or prop == "ALL"]
+    assign_keys(keep)
+    sha, src = ct.files[u.file]
+    out.update(uid=u.uid, file=u.file, sha=sha[:16], span=ct.span(u.fdef), called=sorted(u.called), assumed=sorted(u.assumed),
+               bounded=list(u.bounded), inlined=sorted(u.inlined), inferred=list(getattr(ct, "inferred", [])))
+    for o in keep:
+        smt = to_smt(o, o.bg)
+        hashes = [hyp_hash(h) for h in list(o.bg) + list(o.hyps)]
+        out["obls"].append(dict(unit=o.unit, kind=o.kind, label=o.label, props=sorted(o.props), trail=o.trail, key=o.key,
+                                smt=smt, hashes=hashes, nhyp=len(hashes)))
+    out["gen_s"] = _t.time() - t0
+    return out
+
+
+def generate(tasks):
+    """tasks: list of (qname, N, prop, tier, repo) -> (list[Rec], unit infos, undecided, crashes)"""
+    p = pool()
+    res = list(p.map(gen_unit, tasks, chunksize=1))
+    recs, infos, undecided, crashes = [], [], [], []
+    for r in res:
+        if r.get("crash"):
+            crashes.append("%s: %s" % (r["qname"], r["crash"]))
+            continue
+        if r["undecided"]:
+            undecided.append(r["undecided"])
+            continue
+        infos.append(r)
+        for o in r["obls"]:
+            recs.append(Rec(**o))
+    return recs, infos, undecided, crashes
+
+
 def assign_keys(obls):
     seen = {}
     for ob in obls:
@@ -86,12 +153,15 @@ def discharge(obls, timeout_ms=20000, seed=0, retries=((60000, 1),), use_cvc5=Tr
     # unchanged tree reproducible (VERIF_SEED is recorded in the evidence but does not perturb the solvers)
     seed = int(os.environ.get("PYVC_SOLVER_SEED", "0"))
     p = pool()
-    assign_keys(obls)
+    if any(getattr(ob, "key", None) is None for ob in obls):
+        assign_keys(obls)
     hints = load_hints() if hints is None else hints
     t0 = time.time()
     for ob in obls:
-        ob.smt = to_smt(ob, ob.bg)
-        ob.nhyp = len(ob.bg) + len(ob.hyps)
+        if getattr(ob, "smt", None) is None:
+            ob.smt = to_smt(ob, ob.bg)
+            ob.nhyp = len(ob.bg) + len(ob.hyps)
+            ob.hashes = [hyp_hash(h) for h in list(ob.bg) + list(ob.hyps)]
     canaries = [ob for ob in obls if ob.kind == "canary"]
     real = [ob for ob in obls if ob.kind != "canary"]
     for ob in canaries:
@@ -100,7 +170,6 @@ def discharge(obls, timeout_ms=20000, seed=0, retries=((60000, 1),), use_cvc5=Tr
     hinted = [ob for ob in real if ob.key in hints]
     for ob in hinted:
         hs = set(hints[ob.key])
-        ob.hashes = [hyp_hash(h) for h in list(ob.bg) + list(ob.hyps)]
         ob.subset = [i for i, x in enumerate(ob.hashes) if x in hs]
         ob._stage, ob._full = "z3(core-hint,ematch)", False
     left = _stage(p, hinted, lambda ob: (ob.smt, 4000, seed, "hint", ob.subset, "ematch"))
@@ -140,8 +209,7 @@ def learn_hints(obls, hints, seed=0):
     res = list(p.map(worker.run, [(ob.smt, int(min(60000, max(10000, 3000 * ob.time))), seed, "core") for ob in cand], chunksize=1))
     for ob, (st, t, core) in zip(cand, res):
         if st == "unsat":
-            H = list(ob.bg) + list(ob.hyps)
-            hints[ob.key] = sorted(set(hyp_hash(H[i]) for i in core))
+            hints[ob.key] = sorted(set(ob.hashes[i] for i in core))
     tmp = HINTS_PATH + ".tmp"
     json.dump(hints, open(tmp, "w"), indent=0, sort_keys=True)
     os.replace(tmp, HINTS_PATH)
